@@ -647,6 +647,17 @@ func checkPublishLoop(c *km.Ctx, pub *ssa.Function) {
 				if list, elem, isM := membership(f); isM && elem == signerFP {
 					if fpKeyed(list) || mentionsField(list, "KeymasterPublicKeys") {
 						known[edge{b, to}] = true
+					} else if elems, okL := sliceAppendedElems(list); okL && len(elems) > 0 {
+						// a local list of the fingerprints of the published keys (kept up to date as keys are added)
+						allFP := true
+						for _, e := range elems {
+							if cl, idx := callRes(km.Unwrap(e)); cl == nil || idx != 0 || km.CalleeFull(cl.Common()) != KMD+".getKeyFingerprint" {
+								allFP = false
+							}
+						}
+						if allFP {
+							known[edge{b, to}] = true
+						}
 					}
 				}
 				// found flag: a boolean web that is true only under signerFP == <fingerprint> and false-initialised in this iteration
